@@ -220,6 +220,9 @@ def scalar_call(f, vals, modes, memo):
     """The scalar entry point: one call with single values, each spelled the way the array call spells
     that argument (a literal for a literal argument -- the repo's text rules tell 1 from 1.0 -- a single
     cell for a range argument; blanks exist only in cells)."""
+    if len(vals) >= 32:
+        # the >= 32-argument path mistreats scalar literals (F-C05-2): the reference call uses cells only
+        modes = ['rng'] * len(vals)
     modes = ['rng' if isinstance(v, Blank) else m for v, m in zip(vals, modes)]
     key = repr((vals, modes))
     if key in memo:
@@ -409,42 +412,55 @@ def check_lift(case):
     if any(x is None for row in E2 for x in row):
         labels.append('scalar-call-no-output')
 
-    def judge(sub, got, text, tagger):
+    def judge(sub, got, text, inputs, tagger):
         """compare one array call with both oracles"""
-        bad = got is None or L.same_matrix(got, F2) is not None
+        exp2, exp1, tags1, value, tag = F2, F1, FT, (E2 if not all_scalar else None), ftag
+        if ftag in ('equal-count', 'truncate'):
+            # separate lifting from fitting: the same call into a destination of exactly the result's shape
+            # must equal the per-element results, and `got` must be the fit of *that* array
+            plain = run_cell(dest_ref(rshape), text, inputs)
+            if plain is not None and L.same_matrix(plain, L.fit(E2, *rshape)) is None:
+                fexp = L.fit(plain, *dshape)
+                if got is None or L.same_matrix(got, fexp) is not None:
+                    fails.append(('fit|%s|cell-%s|%s' % (ftag, sub, got_class(got, fexp, plain, dshape, ftag)),
+                                  '%s into %s: got %r, the same call into %s gives %r, which fits as %r' % (
+                                      text, d, got, dest_ref(rshape), plain, fexp)))
+                return
+            # the unfitted result is already wrong: report it as a lifting failure on the identity destination
+            got, exp2, tag = plain, L.fit(E2, *rshape), 'identity'
+            exp1 = L.fit(E1, *rshape) if E1 else None
+            tags1 = L.fit(T1, *rshape) if T1 else None
+        bad = got is None or L.same_matrix(got, exp2) is not None
         if bad:
-            gc = got_class(got, F2, E2 if not all_scalar else None, dshape, ftag)
-            if gc == 'reflow' and ftag in ('equal-count', 'truncate'):
-                sig = 'fit|%s|cell-%s|reflow' % (ftag, sub)
-            else:
-                pos = None if got is None else L.same_matrix(got, F2)
-                tg = tagger(pos)
-                if gc == 'all:#VALUE!' and sub == 'lift' and any(x == X.VALUE for row in E2 for x in row):
-                    # the scalar rule of at least one element is #VALUE! and the whole array became #VALUE!
-                    tg = 'element-exception-poisons-array'
-                sig = '%s|%s|%s|%s' % (sub, tg, fam if sub == 'lift' else f, gc)
+            gc = got_class(got, exp2, value, dshape if tag != 'identity' else rshape, tag)
+            pos = None if got is None else L.same_matrix(got, exp2)
+            tg = tagger(pos)
+            if gc == 'all:#VALUE!' and sub == 'lift' and any(x == X.VALUE for row in E2 for x in row):
+                # the scalar rule of at least one element is #VALUE! and the whole array became #VALUE!
+                tg = 'element-exception-poisons-array'
+            sig = '%s|%s|%s|%s' % (sub, tg, fam if sub == 'lift' else f, gc)
             fails.append((sig, '%s into %s: got %r, per-element scalar calls give %r%s' % (
-                text, d, got, F2, (' (xlref: %r)' % (F1,)) if F1 else '')))
-        elif F1 is not None:
-            pos = L.same_matrix(got, F1)
+                text, d if tag != 'identity' else dest_ref(rshape), got, exp2, (' (xlref: %r)' % (exp1,)) if exp1 else '')))
+        elif exp1 is not None:
+            pos = L.same_matrix(got, exp1)
             if pos is not None:
-                tg = 'shape' if pos == 'shape' else FT[pos[0]][pos[1]]
+                tg = 'shape' if pos == 'shape' else tags1[pos[0]][pos[1]]
                 gc = 'shape' if pos == 'shape' else X.cls(got[pos[0]][pos[1]])
                 rt = ('xlref:%s' % tg) if sub == 'lift' else tagger(pos)
                 fails.append(('%s|%s|%s|%s' % (sub, rt, fam if sub == 'lift' else f, gc),
-                              '%s into %s: got %r (same as per-element scalar calls), reference rules give %r' % (text, d, got, F1)))
+                              '%s into %s: got %r (same as per-element scalar calls), reference rules give %r' % (text, d, got, exp1)))
 
     pargs, pmodes = padded(f, args, modes, npad, case.get('padpos', 'back'), case.get('padmode', 'lit'))
     if len(args) < 32 or not npad:
         text, inputs = build(f, args, modes)
         got = run_cell(d, text, inputs)
-        judge('lift' if len(args) < 32 else 'many', got, text,
+        judge('lift' if len(args) < 32 else 'many', got, text, inputs,
               (lambda pos: lift_tag(args, modes, pos, sc)) if len(args) < 32 else (lambda pos: many_tag(f, args, modes)))
     if npad:
         text, inputs = build(f, pargs, pmodes)
         got = run_cell(d, text, inputs)
         sub = 'many' if len(pargs) >= 32 else 'lift'
-        judge(sub, got, text, (lambda pos: many_tag(f, pargs, pmodes)) if sub == 'many' else (lambda pos: lift_tag(args, modes, pos, sc)))
+        judge(sub, got, text, inputs, (lambda pos: many_tag(f, pargs, pmodes)) if sub == 'many' else (lambda pos: lift_tag(args, modes, pos, sc)))
         labels += ['part:many', argc_label(len(pargs))]
         if sub == 'many':
             labels.append('many:' + many_tag(f, pargs, pmodes).replace('array:', 'array  ').split('  ')[0])
@@ -625,9 +641,9 @@ def enum_funcs(tier, seed):
             if n == 1:
                 k = None
             elif name == 'IF':
-                k = None if (n == 3 or not q) else 60
+                k = (160 if n == 3 else 40) if q else None
             else:
-                k = (25 if q else None) if n == 2 else (30 if q else 300)
+                k = (16 if q else None) if n == 2 else (16 if q else 300)
             for rep in range(1 if q else 4):
                 for shapes in shape_tuples(rnd, n, k):
                     modes = pick_modes(rnd, n)
@@ -670,7 +686,7 @@ def enum_many(tier, seed):
     reps = 1 if tier == 'quick' else 12
     for rep in range(reps):
         for f in VARIADIC:
-            for total in (1, 2, 3, 5, 8, 16, 29, 30, 31, 32, 33, 34, 39, 40):
+            for total in ((1, 3, 8, 30, 31, 32, 33, 40) if tier == 'quick' else (1, 2, 3, 5, 8, 16, 29, 30, 31, 32, 33, 34, 39, 40)):
                 for rshape in [(1, 1), (3, 1), (2, 1), (1, 3), (2, 2), (3, 2), (4, 4), (2, 4), (1, 2)]:
                     for col_only in ((True, 'pure', 'pure', False) if rshape[1] == 1 else (False,)):
                         # core size
@@ -743,13 +759,13 @@ STRATEGIES = {'rand': _rand}
 
 FLOORS = {
     'part:fit': ('count', {'quick': 1500, 'thorough': 10000}),
-    'part:many': ('count', {'quick': 300, 'thorough': 3000}),
+    'part:many': ('count', {'quick': 200, 'thorough': 3000}),
     'argc:32-40': ('count', {'quick': 150, 'thorough': 1500}),
     'many:single:plain': ('count', {'quick': 30, 'thorough': 300}),
     'nt:cross-orientation': ('count', {'quick': 100, 'thorough': 1000}),
-    'kind:blank': ('count', {'quick': 300, 'thorough': 3000}),
+    'kind:blank': ('count', {'quick': 200, 'thorough': 3000}),
     'kind:err': ('count', {'quick': 300, 'thorough': 3000}),
-    'mode:mixed': ('count', {'quick': 200, 'thorough': 2000}),
+    'mode:mixed': ('count', {'quick': 150, 'thorough': 2000}),
 }
 
 
@@ -765,5 +781,5 @@ def _parts(tier, seed, q):
         ('enum', 'operators', enum_ops(tier, seed), 60, False),
         ('enum', 'functions', enum_funcs(tier, seed), 60, False),
         ('enum', 'many', enum_many(tier, seed), 20, False),
-        ('hyp', 'rand', 1600 if q else 40000),
+        ('hyp', 'rand', 800 if q else 40000),
     ]
